@@ -173,7 +173,20 @@ def chk_compact(case):
     return []
 
 
-CASES = {"tx": chk_tx, "compact": chk_compact}
+def chk_ser(case):
+    """serialisation alone (the cheap half of the round trip: light enough for interleavings with two preemptions)"""
+    a = _fix(case["a"])
+    T = make_tx(case["seed"], a, "c05")
+    if T is None:
+        return []
+    ls = call(lib_serialise, T)
+    if ls != ("ok", T.ser()):
+        what = ls[1] if ls[0] != "ok" else f"{len(ls[1])}B vs {len(T.ser())}B"
+        return [(f"C05/serialise/{_cls(a, T)}", f"library serialisation differs from the wire format: {what} ({_desc(a)})")]
+    return []
+
+
+CASES = {"tx": chk_tx, "compact": chk_compact, "ser": chk_ser}
 
 
 def run_case(kind, case):
@@ -197,7 +210,12 @@ def seq_ops(job):
            ("tx", {"seed": seed, "a": dict(d0, wit0=[300, 1], witrest=[253], trailing=1)}), ("tx", {"seed": seed, "a": dict(l0, ss0=300, n_out=3, trailing=2)}),
            ("tx", {"seed": seed, "a": dict(d0, wit0=[], witrest=[1, 0])}), ("tx", {"seed": seed, "a": dict(l0, n_in=3, version=0)}),
            ("compact", {"n": 105, "tail": ""}), ("compact", {"n": 300, "tail": "00"}), ("compact", {"n": 2 ** 64, "tail": ""})]
+    # 9, 10: serialisation alone, a segwit and a legacy transaction (SER_SCEN)
+    ops += [("ser", {"seed": seed, "a": dict(d0, wit0=[5], witrest=[], n_in=1, n_out=1)}), ("ser", {"seed": seed, "a": dict(l0, ss0=7, spk0=9, n_in=1, n_out=2)})]
     return ops
+
+
+SER_SCEN = [((9, 10), ()), ((10, 10), (9,))]
 
 
 def jobs(tier, seed):
@@ -218,7 +236,9 @@ def jobs(tier, seed):
     from vf.runner import interrupt_jobs
     js += interrupt_jobs(len(INTERRUPT_X))
     from vf.runner import concur_jobs
-    js += concur_jobs(len(CONCUR_SCEN) - (1 if tier == "quick" else 0))
+    js += concur_jobs(len(CONCUR_SCEN) - (1 if tier == "quick" else 0), deep=(tier == "thorough"))
+    for i in range(len(SER_SCEN)):
+        js.append({"name": f"concurrent-ser/{i}", "part": "concurcase", "idx": i, "curve": None, "deep": True, "weight": 8})
     return js
 
 
@@ -226,8 +246,9 @@ def run_job(job):
     if job["part"] == "concurcase":
         from vf.runner import run_concur_job
         ops = seq_ops(dict(job, shard=[0, 1]))
-        scens = [{"threads": [ops[i] for i in sc[0]], "warm": [ops[i] for i in sc[1]], "post": [ops[i] for i in (sc[2] if len(sc) > 2 else ())]} for sc in CONCUR_SCEN]
-        return run_concur_job(job, scens, run_case, PROPERTY, CONCUR_FILES)
+        table = SER_SCEN if job["name"].startswith("concurrent-ser") else CONCUR_SCEN
+        scens = [{"threads": [ops[i] for i in sc[0]], "warm": [ops[i] for i in sc[1]], "post": [ops[i] for i in (sc[2] if len(sc) > 2 else ())]} for sc in table]
+        return run_concur_job(job, scens, run_case, PROPERTY, CONCUR_FILES, alphabet=None if job["name"].startswith("concurrent-ser") else ops)
     if job["part"] == "longhist":
         from vf.runner import run_long_job, default_long_ops
         return run_long_job(job, default_long_ops(seq_ops, job), run_case)
